@@ -225,7 +225,7 @@ def run_shard(shard, tier, seed):
 
 # ----------------------------------------------------------------------------- CLI clause
 CLI_ALGOS = ("lca", "thl", "exh", "base_spfs", "ext_spfs", "base_uspfs", "superdtl")
-CLI_COSTS = [(0, 1, 1, 1, 1), (1, 2, 1, 1, 0), (0, 1, INF, 1, 1)]
+CLI_COSTS = [(0, 1, 1, 1, 1), (1, 2, 1, 1, 0), (0, 1, INF, 1, 1), (0, 1.5, 1, 0.25, 0.75)]   # the last one: non-integer optimum
 
 
 def cli_input_json(O, S, leafmap, leafsyn, onames, snames):
